@@ -48,6 +48,10 @@ pub struct Case {
     /// incomplete directories: they must be skipped like any other non-package entry
     #[serde(default)]
     pub raw_strays: Vec<B>,
+    /// how the database directory is spelled when it is opened: 0 plain, 1 trailing '/',
+    /// 2 trailing '//', 3 trailing '/.', 4 '/./' in front of the last component, 5 via '<name>/../<name>'
+    #[serde(default)]
+    pub open_spelling: u8,
     #[serde(default)]
     pub raw_incomplete_dirs: Vec<B>,
 }
@@ -71,7 +75,8 @@ fn dir_name() -> BoxedStrategy<String> {
 
 fn content() -> BoxedStrategy<String> {
     prop_oneof![
-        12 => prop::sample::select(vec!["", "A comment\n", "line1\nline2\n", "  padded  \n", "é ü\n", "12345\n", "@name foo-1.0\nbin/foo\n", "\n", "x"]).prop_map(String::from),
+        12 => prop::sample::select(vec!["", "A comment\n", "line1\nline2\n", "  padded  \n", "é ü\n", "12345\n", "@name foo-1.0\nbin/foo\n", "\n", "x",
+            "#!/bin/sh\r\necho hi\r\n", "a\r\nb", "\r\n", "cr only\r", "\r", "a\rb\n", "tab\there\n", "form\x0cfeed\n", "nul\0byte\n", "\u{feff}bom\n", "trailing blank \n", "\n\nleading\n\n"]).prop_map(String::from),
         2 => (crate::engine::dict::string_token(|_| true, "a"), any::<bool>()).prop_map(|(t, nl)| if nl { format!("{}\n", t) } else { t }),
         // longer than any internal read buffer, with multi-byte characters at arbitrary offsets
         1 => (900usize..5000, 1usize..40, prop::sample::select(vec!["é", "€", "💖", "ü"])).prop_map(|(n, every, ch)| {
@@ -120,12 +125,13 @@ fn case_strategy(tier: Tier) -> BoxedStrategy<Case> {
             let mut seen = std::collections::BTreeSet::new();
             let dirs: Vec<Dir> = dirs.into_iter().filter(|d| seen.insert(d.name.clone())).collect();
             let stray_files: Vec<String> = stray_files.into_iter().filter(|f| seen.insert(f.clone())).collect();
-            Case { dirs, stray_files, raw_strays: vec![], raw_incomplete_dirs: vec![] }
+            Case { dirs, stray_files, raw_strays: vec![], raw_incomplete_dirs: vec![], open_spelling: 0 }
         })
         .boxed();
     let raw = || prop::collection::vec(prop::sample::select(vec![&b"\xff"[..], b"\x80-1.0", b"caf\xe9-2", b"\xc3(", b"x\xfe"]).prop_map(|b| B(b.to_vec())), 0..2);
-    (base, prop::option::weighted(0.3, (raw(), raw())))
-        .prop_map(|(mut c, r)| {
+    (base, prop::option::weighted(0.3, (raw(), raw())), prop_oneof![3 => Just(0u8), 2 => 1u8..6])
+        .prop_map(|(mut c, r, spelling)| {
+            c.open_spelling = spelling;
             if let Some((a, b)) = r {
                 c.raw_strays = a;
                 c.raw_incomplete_dirs = b.into_iter().filter(|x| !c.raw_strays.contains(x)).collect();
@@ -181,7 +187,27 @@ pub fn check(c: &Case, obs: &mut Obs) -> Result<(), String> {
     }
     let want: BTreeMap<&str, &Dir> =
         c.dirs.iter().filter(|d| MANDATORY.iter().all(|m| d.files.contains_key(m))).map(|d| (d.name.as_str(), d)).collect();
-    let db = PkgDB::open(&root.0).map_err(|e| format!("PkgDB::open: {}", e))?;
+    let spelled: std::path::PathBuf = {
+        use std::os::unix::ffi::{OsStrExt, OsStringExt};
+        let raw = root.0.as_os_str().as_bytes().to_vec();
+        let (dir, last) = match raw.iter().rposition(|b| *b == b'/') {
+            Some(i) => (raw[..i].to_vec(), raw[i + 1..].to_vec()),
+            None => (b".".to_vec(), raw.clone()),
+        };
+        let bytes = match c.open_spelling % 6 {
+            0 => raw,
+            1 => [raw, b"/".to_vec()].concat(),
+            2 => [raw, b"//".to_vec()].concat(),
+            3 => [raw, b"/.".to_vec()].concat(),
+            4 => [dir, b"/./".to_vec(), last].concat(),
+            _ => [raw, b"/../".to_vec(), last].concat(),
+        };
+        std::ffi::OsString::from_vec(bytes).into()
+    };
+    if c.open_spelling % 6 != 0 {
+        obs.class("database-path-spelled-differently");
+    }
+    let db = PkgDB::open(&spelled).map_err(|e| format!("PkgDB::open({:?}): {}", spelled, e))?;
     let mut seen: BTreeMap<String, u32> = BTreeMap::new();
     for item in db {
         let pkg = item.map_err(|e| format!("iteration error: {}", e))?;
